@@ -23,7 +23,8 @@ VARIABLES S, tag
 vars == <<S, tag>>
 
 Perms(n) == {f \in [1..n -> 1..n] : \A i, j \in 1..n : i # j => f[i] # f[j]}
-Orders == IF WithOrders THEN Perms(5)
+\* thorough: every processing order up to reversal (60 of the 120; reversed orders are in the small set)
+Orders == IF WithOrders THEN {f \in Perms(5) : f[1] < f[5]} \cup {<<5, 4, 3, 2, 1>>}
           ELSE {<<1, 2, 3, 4, 5>>, <<5, 4, 3, 2, 1>>, <<3, 5, 1, 4, 2>>}
 
 NonEmptySubsets(X) == SUBSET X \ {{}}
